@@ -1,6 +1,9 @@
 import Mastverif.Model.Tree
 import Mastverif.Model.Codec
 import Mastverif.Model.Store
+import Mastverif.Model.Canon
+import Mastverif.Model.Diff
+import Mastverif.Model.Cursor
 import Std.Data.HashMap
 /-!
 # Line-protocol driver for the executable models (compiled as `mastmodel`)
@@ -25,6 +28,7 @@ structure St where
   /-- persisted versions by name: the subtree value (all links names) -/
   nodes : Std.HashMap String T := {}
   bytes : Std.HashMap String Bytes := {}
+  cursors : Std.HashMap Nat Path := {}
 
 def hexDigit (n : Nat) : Char := if n < 10 then Char.ofNat (48 + n) else Char.ofNat (87 + n)
 def hex (b : Bytes) : String :=
@@ -66,7 +70,7 @@ def parseKK : String → Option KeyKind
 def parseVK : String → Option ValKind
   | "u64" => some .u64 | "bytes" => some .bytes | "str" => some .str | _ => none
 
-def step (s : St) (line : String) : St × String :=
+partial def step (s : St) (line : String) : St × String :=
   let toks := (line.trimAscii.toString.splitOn " ").filter (· ≠ "")
   let nat (x : String) : Option Nat := x.toNat?
   match toks with
@@ -160,12 +164,122 @@ def step (s : St) (line : String) : St × String :=
                                 bf := r.bf, shrinkBelow := r.bf ^ r.height, growAfter := r.bf ^ (r.height + 1) }
               ({ s with trees := s.trees.insert i m }, "ok")
       | _, _ => (s, "bad-slot")
+  | ["pshape", rslot] =>
+      match nat rslot >>= (s.roots[·]?) with
+      | some r =>
+          match r.link with
+          | none => (s, "[-]")
+          | some l => match s.nodes[bstr l]? with
+            | some t => (s, "*" ++ shape t)
+            | none => (s, "err missing")
+      | none => (s, "bad-slot")
   | ["reach", slot] =>
       match nat slot >>= (s.trees[·]?) with
       | some m =>
           let names := ((Tree.reach s.enc m).map bstr).toArray.qsort (· < ·) |>.toList
           (s, " ".intercalate names)
       | none => (s, "bad-slot")
+  | "canonroot" :: slot :: ents =>
+      if (nat slot >>= (s.trees[·]?)).isNone then (s, "bad-slot") else
+      let parsed := ents.map fun e => match e.splitOn "=" with
+        | [k, v] => (k.toNat?.getD 0, v.toNat?.getD 0)
+        | _ => (0, 0)
+      let m := Tree.canon s.cfg.bf s.layer parsed
+      let (_, r, _) := Tree.makeRoot s.enc m
+      let linkS := match r.link with | some l => bstr l | none => "-"
+      (s, s!"{linkS} {r.size} {r.height} {r.bf}")
+  | "canonshape" :: _slot :: ents =>
+      let parsed := ents.map fun e => match e.splitOn "=" with
+        | [k, v] => (k.toNat?.getD 0, v.toNat?.getD 0)
+        | _ => (0, 0)
+      (s, shape (Tree.canon s.cfg.bf s.layer parsed).root)
+  | ["name", hx] =>
+      let rec unhex : List Char → Bytes
+        | a :: b :: rest =>
+            let d (c : Char) : Nat := if c.toNat ≥ 97 then c.toNat - 87 else c.toNat - 48
+            (d a * 16 + d b).toUInt8 :: unhex rest
+        | _ => []
+      (s, bstr (blakeName (unhex hx.toList)))
+  | [cmd@"diffstop", o, n, j] | [cmd@"differr", o, n, j] =>
+      -- the callback sees events 0..j and then stops (returns false / an error)
+      let (_, all) := step s s!"diff {o} {n}"
+      if all == "bad-slot" || all == "bad-op" then (s, all) else
+      let evs := (all.splitOn " ").filter (· ≠ "")
+      let j := (nat j).getD 0
+      let hit := evs.length > j
+      let seen := if hit then evs.take (j + 1) else evs
+      let res := if cmd == "differr" && hit then "cberr" else "ok"
+      (s, res ++ " " ++ " ".intercalate seen)
+  | [cmd@"diff", o, n] | [cmd@"difflinks", o, n] | [cmd@"diffloads", o, n] | [cmd@"diffall", o, n] =>
+      match nat n >>= (s.trees[·]?) with
+      | none => (s, "bad-slot")
+      | some mn =>
+          let oldRoot : Option (Option (Bool × T)) :=
+            if o == "-" then some none
+            else match nat o >>= (s.trees[·]?) with
+              | some mo => some (some (mo.rootP, mo.root))
+              | none => none
+          match oldRoot with
+          | none => (s, "bad-slot")
+          | some oldRoot =>
+              let nameOf := nodeName s.enc
+              let fuel := 4 * (Diff.W mn.root + (match oldRoot with | some (_, t) => Diff.W t | none => 0)) + 16
+              let (evs, loads) := Diff.run s.layer nameOf fuel (Diff.init oldRoot mn.rootP mn.root)
+              let showEv : DEv → String
+                | .add k v => s!"+{k}={v}"
+                | .rem k v => s!"-{k}={v}"
+                | .chg k a b => s!"~{k}={a}>{b}"
+                | .addLink nm => "+" ++ bstr nm
+                | .remLink nm => "-" ++ bstr nm
+              let ents := (evs.filter Diff.isEntryEv).map showEv
+              let links := (evs.filter (fun e => !Diff.isEntryEv e)).map showEv
+              let distinct := (loads.map bstr).toArray.qsort (· < ·) |>.toList.eraseDups
+              if cmd == "diff" then (s, " ".intercalate ents)
+              else if cmd == "difflinks" then (s, " ".intercalate links)
+              else if cmd == "diffloads" then (s, s!"{distinct.length} " ++ " ".intercalate distinct)
+              else (s, " ".intercalate (evs.map showEv))
+  | ["cur", slot, c] =>
+      match nat slot >>= (s.trees[·]?), nat c with
+      | some m, some c => ({ s with cursors := s.cursors.insert c [(m.root, 0)] }, "ok")
+      | _, _ => (s, "bad-slot")
+  | [cmd@"cmin", c] | [cmd@"cmax", c] | [cmd@"cfwd", c] | [cmd@"cbwd", c] | [cmd@"cget", c] =>
+      match nat c with
+      | none => (s, "bad-op")
+      | some c =>
+        match s.cursors[c]? with
+        | none => (s, "bad-slot")
+        | some path =>
+            let fuel := 100000
+            let path' := match cmd with
+              | "cmin" => Cursor.min fuel path
+              | "cmax" => Cursor.max fuel path
+              | "cfwd" => Cursor.forward fuel path
+              | "cbwd" => Cursor.backward fuel path
+              | _ => path
+            let out := match Cursor.get path' with
+              | some (k, v) => s!"{k}={v}"
+              | none => "none"
+            ({ s with cursors := s.cursors.insert c path' }, out)
+  | ["cceil", c, k] =>
+      match nat c, nat k with
+      | some c, some k =>
+        match s.cursors[c]? with
+        | none => (s, "bad-slot")
+        | some path =>
+            let path' := Cursor.ceil k 100000 path
+            let out := match Cursor.get path' with
+              | some (k, v) => s!"{k}={v}"
+              | none => "none"
+            ({ s with cursors := s.cursors.insert c path' }, out)
+      | _, _ => (s, "bad-op")
+  | ["seek", slot, k] =>
+      match nat slot >>= (s.trees[·]?), nat k with
+      | some m, some k => (s, "[" ++ showList (Cursor.seekIter 100000 m.root k) ++ "]")
+      | _, _ => (s, "bad-slot")
+  | ["seekstop", slot, k, j] =>
+      match nat slot >>= (s.trees[·]?), nat k, nat j with
+      | some m, some k, some j => (s, "[" ++ showList ((Cursor.seekIter 100000 m.root k).take j) ++ "]")
+      | _, _, _ => (s, "bad-slot")
   | ["layer", kk, bf, k] =>
       match parseKK kk, nat bf, nat k with
       | some kk, some bf, some k => (s, s!"{layerOf kk bf k}")
